@@ -190,6 +190,9 @@ func MuxScenarios(thorough bool) []MuxScenario {
 		MuxScenario{Name: "auto-pid-next-to-reserved-p40", Period: 40, Setup: []MOp{opAddA, opPcrA, {K: "add", PID: 0x0fff, ST: stAAC}, opAddHi},
 			Alpha: []MOp{{K: "churn", N: 3837}, {K: "churn", N: 4090}, opAddAuto, opDataA1, opDataAuto, opTables}, Depth: 4, Dedup: true},
 		MuxScenario{Name: "packet-size-edges-p2", Period: 2, Setup: setupA, Alpha: muxPktEdgeAlpha, Depth: 3, Dedup: true},
+		// caller packets with every value of the header's small fields (scrambling control, transport_error, priority)
+		MuxScenario{Name: "packet-header-values-p2", Period: 2, Setup: setupA,
+			Alpha: []MOp{{K: "pkt", Pkt: "scr1"}, {K: "pkt", Pkt: "scr2"}, {K: "pkt", Pkt: "scr3"}, {K: "pkt", Pkt: "teiprio"}, opDataA1, opTables}, Depth: 3, Dedup: true},
 		// one adaptation field struct edited between calls: fields that fit, that leave no room for the PES header, that
 		// cannot fit a packet at all - whatever a call leaves in the struct's length bookkeeping is what the next call finds
 		MuxScenario{Name: "shared-af-struct-p2", Period: 2, Setup: setupA, ShareAF: true,
